@@ -89,6 +89,8 @@ elif var == 'nan_droop':
 elif var == 'corrupt' and ss.TGOV1.n > 0:
     for i in range(len(ss.TGOV1.VMAX.v)):
         ss.TGOV1.VMAX.v[i] = 0.1
+if ss.Bus.n == 0:
+    print(json.dumps({'skip': 'no buses: a data sheet meant to be added to a static case, not a case'})); sys.exit(0)
 try:
     ss.setup()
     pf = ss.PFlow.run()
@@ -106,6 +108,8 @@ if pf:
         print(json.dumps({'error': 'TDS.init: ' + repr(e)[:200], 'pf': True})); sys.exit(0)
     fg = ss.dae.fg.copy()
     fgc = fg.copy()
+    # devices whose input is a recorded time series drive the system: a run with them is not an undisturbed run
+    out['driven'] = sorted(n for n in ('PLBVFU1', 'TimeSeries') if n in ss.models and ss.models[n].n > 0)
     out.update(n=int(ss.dae.n), m=int(ss.dae.m), test_ok=ss.TDS.test_ok, maxfg=float(np.nanmax(np.abs(fg))) if len(fg) else 0.0,
                nan=bool(np.isnan(fg).any()), tol=float(c.tol),
                bus_same=bool(np.array_equal(ss.dae.y[:2 * nb], ys[:2 * nb])),
@@ -158,6 +162,9 @@ def run(ctx):
     for sp, r in zip(specs, res):
         tag = {'case': os.path.relpath(sp['file'], root), 'variant': sp.get('variant')}
         ctx.case(json.dumps(tag, sort_keys=True) if r.get('n', 0) > 0 else None, dict(tag, maxfg=r.get('maxfg'), test_ok=r.get('test_ok')))
+        if 'skip' in r:
+            ctx.count('skipped_not_a_case')
+            continue
         if 'error' in r:
             ctx.oracle_fail('init-raises:%s' % (sp.get('variant') or 'stock'), 'initialisation raised on %s: %s' % (tag, r['error'][-200:]), tag)
             continue
@@ -190,10 +197,14 @@ def run(ctx):
             else:
                 ctx.count('stock_case_reports_failed_init')    # whether the shipped data are consistent is not ours to say
             continue
-        if 'drift' in r:
+        if 'drift' in r and r.get('driven'):
+            ctx.count('undisturbed_run_skipped_driven_by_time_series')
+        elif 'drift' in r:
             ctx.count('undisturbed_runs')
             ctx.cov['max_undisturbed_drift'] = max(ctx.cov.get('max_undisturbed_drift', 0.0), r['drift'])
-            if not r['run_ok'] or r['drift'] > 1e-5:
+            # an initial point accepted with residual maxfg < tol is corrected by the first Newton iterations by an
+            # amount of that order: the bound scales with the accepted residual (tol = 1e-4 at most)
+            if not r['run_ok'] or r['drift'] > 1e-5 + 20 * r['maxfg']:
                 mdl = (r.get('drift_var') or '? ?').split()[1] if len((r.get('drift_var') or '').split()) > 1 else '?'
                 ctx.oracle_fail('undisturbed-run-drifts:%s' % mdl, '%s: an undisturbed run moves away from the initial point: %s changes by %.3g in 1 s (completed: %s)'
                                 % (tag, r.get('drift_var'), r['drift'], r['run_ok']), tag)
